@@ -418,8 +418,8 @@ func TestSenderWorld(t *testing.T) {
 	}
 	// the member the translator reads off the source (Spine.Generated.Sender.requestRemembersBeforeWrite) must be the
 	// member the probe finds on the running code
-	if static := d.Ask("member"); (static == "1") == on {
-		r.Mismatch(wit, fmt.Sprintf("probed: request remembered after the write = %v (%s)", on, det), "source says: remembered before the write = "+static, "family member: static fact vs dynamic probe")
+	if static := d.Ask("member"); (static == "after-window") != on {
+		r.Mismatch(wit, fmt.Sprintf("probed: an answered-in-flight request stays remembered = %v (%s)", on, det), "source says: "+static, "family member: static fact vs dynamic probe")
 	}
 	if ops := h.ReplayOps("sender-world"); ops != nil {
 		runSenderWorld(r, d, ops, base)
